@@ -145,6 +145,11 @@ func checkC09(c *Ctx) error {
 				_ = work.WriteFile(real, []byte(y))
 				_ = os.MkdirAll(filepath.Dir(filepath.Join(dir, f)), 0o755)
 				_ = os.Symlink(real, filepath.Join(dir, f))
+			} else if b, ok := ysugar.Recode(y, i+j); ok && (i+j)%5 == 2 {
+				// the same text saved in another encoding YAML allows (UTF-8 with BOM, UTF-16 LE/BE): what an editor on another
+				// platform writes
+				_ = work.WriteFile(filepath.Join(dir, f), b)
+				c.Add("fragments_saved_as:"+[]string{"utf-8-bom", "utf-16le", "utf-16be"}[(i+j)%3], 1)
 			} else {
 				_ = work.WriteFile(filepath.Join(dir, f), []byte(y))
 			}
